@@ -64,6 +64,12 @@ def parse_vwlb_data(fdata: bytes) -> List[Marker]:
         name_end = mnidx + struct.unpack(">H", fdata[(indx+2):(indx+4)])[0]
         logging.debug("name_end: %d", name_end)
         
+        if name_end < name_start:
+            # Label offsets never decrease: overlapping labels would make the
+            # decoded output grow with the square of the input size
+            logging.error("Bad marker label offsets!")
+            raise ValueError("Bad marker label offsets!")
+        
         name = fdata[name_start:name_end].decode(get_encoding())
         logging.debug("Name: %s", name)
         
